@@ -4,6 +4,7 @@ import sys
 from tranpsim import boot
 
 ENGINES = {
+	'C04': ('tranpsim.c04', 'C04'),
 	'C05': ('tranpsim.c05', 'C05'),
 	'C06': ('tranpsim.c06', 'C06'),
 	'C14': ('tranpsim.c14', 'C14'),
